@@ -36,6 +36,7 @@ pub const GATES: &[(&str, usize, usize)] = &[
     ("CPHASE01", 2, 1), ("CPHASE10", 2, 1), ("PSWAP", 2, 1),
 ];
 
+#[allow(dead_code)]
 pub fn arity(name: &str) -> usize {
     GATES.iter().find(|g| g.0 == name).map(|g| g.1).unwrap_or_else(|| panic!("not a standard gate: {name}"))
 }
